@@ -453,6 +453,10 @@ class _InlineNewHelpers(_InlineMethods):
                 else:
                     st.value = h.visit(st.value)
             elif isinstance(st, ast.If):
+                whole = self._expand_condition(st, host)
+                if whole is not None:
+                    out += whole
+                    continue
                 st.test = h.visit(st.test)
             elif isinstance(st, ast.For):
                 st.iter = h.visit(st.iter)
@@ -472,14 +476,166 @@ class _InlineNewHelpers(_InlineMethods):
             out += seq
         return out
 
-    def _try_expand(self, st, call, target, host, tail=False):
+    def _expand(self, st, call, target, host, m, has_recv=True, tail=False, on_return=None):
+        """like the expander of the base class, but: locals keep their names unless the host uses the same name for something else (an extracted
+        block usually kept the names it had); a `return` anywhere in the helper becomes the assignment of the call's target followed by a jump
+        to the end of the expanded block (a constant-true `if` marked `_inlined_block_id`, the jump a `pass` marked `_leave_id`: the flow graph
+        knows both); results that travel as a tuple are assigned element by element"""
+        import copy
+        if any(isinstance(a, ast.Starred) for a in call.args) or any(k.arg is None for k in call.keywords):
+            raise ValueError('star arguments')
+        self.counter += 1
+        tag = '__%s_%d_' % (m.name.strip('_'), self.counter)
+        plain = [a.arg for a in m.args.posonlyargs + m.args.args]
+        params = plain + [a.arg for a in m.args.kwonlyargs]
+        if has_recv:
+            recv_m, params, plain = params[0], params[1:], plain[1:]
+        bound = {}
+        if len(call.args) > len(plain):
+            raise ValueError('too many arguments')
+        for p_, a in zip(plain, call.args):
+            bound[p_] = a
+        for k in call.keywords:
+            if k.arg not in params or k.arg in bound:
+                raise ValueError('unknown keyword')
+            bound[k.arg] = k.value
+        defaults = dict(zip([a.arg for a in (m.args.posonlyargs + m.args.args)][-len(m.args.defaults):] if m.args.defaults else [], m.args.defaults))
+        defaults.update({a.arg: d for a, d in zip(m.args.kwonlyargs, m.args.kw_defaults) if d is not None})
+        for p_ in params:
+            if p_ not in bound:
+                if p_ not in defaults:
+                    raise ValueError('unbound parameter')
+                bound[p_] = copy.deepcopy(defaults[p_])
+        body = [copy.deepcopy(x) for x in m.body if not (isinstance(x, ast.Expr) and isinstance(x.value, ast.Constant) and isinstance(x.value.value, str))]
+        stored = {x.id for b in body for x in ast.walk(b) if isinstance(x, ast.Name) and isinstance(x.ctx, (ast.Store, ast.Del))}
+        for b in body:
+            for x in ast.walk(b):
+                if isinstance(x, ast.ExceptHandler) and x.name:
+                    stored.add(x.name)
+        host_names = {x.id for x in ast.walk(host) if isinstance(x, ast.Name)} | {a.arg for a in host.args.posonlyargs + host.args.args + host.args.kwonlyargs}
+        tnames = set()
+        if isinstance(target, ast.Name):
+            tnames = {target.id}
+        elif isinstance(target, ast.Tuple) and all(isinstance(e, ast.Name) for e in target.elts):
+            tnames = {e.id for e in target.elts}
+        arg_names = {p_: {x.id for x in ast.walk(a) if isinstance(x, ast.Name)} for p_, a in bound.items()}
+        mapping = {}
+        if has_recv:
+            mapping[recv_m] = host.args.args[0].arg
+        pre = []
+        for p_ in params:
+            a = bound[p_]
+            if isinstance(a, ast.Name) and a.id == p_ and (p_ not in stored or tail or p_ in tnames):
+                mapping[p_] = p_
+                continue
+            keep = (p_ not in host_names or p_ in tnames) and not any(p_ in ns for q, ns in arg_names.items() if q != p_)
+            mapping[p_] = p_ if keep else tag + p_
+            asg = ast.Assign(targets=[ast.Name(id=mapping[p_], ctx=ast.Store())], value=a, type_comment=None)
+            pre.append(ast.copy_location(asg, st))
+        for nm in stored:
+            if nm not in mapping:
+                mapping[nm] = nm if (nm not in host_names or nm in tnames) else tag + nm
+        ren = _Rename({k: v for k, v in mapping.items() if k != v})
+        body = [ren.visit(b) for b in body]
+        for b in body:
+            for x in ast.walk(b):
+                if isinstance(x, ast.ExceptHandler) and x.name in mapping:
+                    x.name = mapping[x.name]
+
+        def result(ret):
+            v = ret.value
+            if target is None:
+                if v is None or isinstance(v, (ast.Constant, ast.Name)):
+                    return []
+                return [ast.copy_location(ast.Expr(value=v), ret)]
+            if v is None:
+                v = ast.copy_location(ast.Constant(value=None), ret)
+            if isinstance(target, ast.Tuple) and isinstance(v, ast.Tuple) and len(target.elts) == len(v.elts) and all(isinstance(e, ast.Name) for e in target.elts):
+                pairs = [(t, e) for t, e in zip(target.elts, v.elts) if not (isinstance(e, ast.Name) and e.id == t.id)]
+                written = {t.id for t, _e in pairs}
+                read = {x.id for _t, e in pairs for x in ast.walk(e) if isinstance(x, ast.Name)}
+                if not (written & read):
+                    return [ast.copy_location(ast.Assign(targets=[copy.deepcopy(t)], value=e, type_comment=None), ret) for t, e in pairs]
+            if isinstance(target, ast.Name) and isinstance(v, ast.Name) and v.id == target.id:
+                return []
+            return [ast.copy_location(ast.Assign(targets=[copy.deepcopy(target)], value=v, type_comment=None), ret)]
+        if on_return is not None:
+            result = on_return
+        if tail:
+            new_body = body + ([] if _always_leaves(body) else [ast.copy_location(ast.Return(value=ast.Constant(value=None)), st)])
+        else:
+            rets = [x for b in body for x in ast.walk(b) if isinstance(x, ast.Return)]
+            if not rets or (len(rets) == 1 and body and body[-1] is rets[0]):
+                new_body = body[:-1] + result(body[-1]) if rets else list(body)
+                if not rets and (target is not None or on_return is not None):
+                    new_body += result(ast.copy_location(ast.Return(value=None), st))
+            else:
+                bid = self.counter
+
+                class _R(ast.NodeTransformer):
+                    def visit_Return(self_, node):
+                        leave = ast.copy_location(ast.Pass(), node)
+                        leave._leave_id = bid
+                        return result(node) + [leave]
+
+                    def visit_FunctionDef(self_, node):
+                        return node
+                    visit_Lambda = visit_AsyncFunctionDef = visit_FunctionDef
+                inner = []
+                for b in body:
+                    r = _R().visit(b)
+                    inner += r if isinstance(r, list) else [r]
+                if not _always_leaves(body) and (target is not None or on_return is not None):
+                    inner += result(ast.copy_location(ast.Return(value=None), st))
+                blk = ast.copy_location(ast.If(test=ast.copy_location(ast.Constant(value=True), st), body=inner or [ast.copy_location(ast.Pass(), st)], orelse=[]), st)
+                blk._inlined_block_id = bid
+                new_body = [blk]
+        res = pre + new_body
+        for x in res:
+            x._inlined_from = m.name
+            ast.fix_missing_locations(x)
+        return res or [ast.copy_location(ast.Pass(), st)]
+
+    def _try_expand(self, st, call, target, host, tail=False, on_return=None):
         m, has_recv = self._callee(call, host)
         try:
-            if tail and isinstance(target, ast.Tuple):
-                raise ValueError
-            return self._expand(st, call, target, host, m, has_recv=has_recv, tail=tail)
+            return self._expand(st, call, target, host, m, has_recv=has_recv, tail=tail, on_return=on_return)
         except Exception:
-            return [st]
+            return None if on_return is not None else [st]
+
+    def _expand_condition(self, st, host):
+        """`if helper(...): A else: B` (or `if not helper(...)`): the helper's body with every `return v` replaced by the branch that v selects, so
+        that each exit of the helper keeps the conditions it was taken under.  Only when A and B are small and cannot be captured by a loop of
+        the helper (no break / continue)"""
+        import copy
+        test, neg = st.test, False
+        if isinstance(test, ast.UnaryOp) and isinstance(test.op, ast.Not):
+            test, neg = test.operand, True
+        if not isinstance(test, ast.Call):
+            return None
+        r = self._callee(test, host)
+        if r is None or not self._eligible(host, r[0]):
+            return None
+        m = r[0]
+        branches = st.body + st.orelse
+        if sum(1 for b in branches for _x in ast.walk(b) if isinstance(_x, ast.stmt)) > 8:
+            return None
+        if any(isinstance(x, (ast.Break, ast.Continue)) for b in branches for x in ast.walk(b)):
+            return None
+        rets = [x for b in m.body for x in ast.walk(b) if isinstance(x, ast.Return)]
+        if len(rets) > 6:
+            return None
+
+        def on_return(ret):
+            v = ret.value
+            if v is None or isinstance(v, ast.Constant):
+                truth = bool(v.value) if v is not None else False
+                chosen = st.body if truth != neg else st.orelse
+                return [copy.deepcopy(x) for x in chosen]
+            t = ast.copy_location(ast.UnaryOp(op=ast.Not(), operand=v), v) if neg else v
+            new = ast.copy_location(ast.If(test=t, body=[copy.deepcopy(x) for x in st.body] or [ast.copy_location(ast.Pass(), ret)], orelse=[copy.deepcopy(x) for x in st.orelse]), ret)
+            return [new]
+        return self._try_expand(st, test, None, host, on_return=on_return)
 
 
 class Module:
